@@ -115,31 +115,99 @@ func c09JsWrite(sf *ast.SoyFileNode, es6 bool) (out string, err error) {
 	return buf.String(), err
 }
 
-// c09PackageState copies the enumerated package-level state into the evidence.
-func c09PackageState(e *env) {
+type c09Site struct {
+	Dir, Func, Var, Kind, File string
+	Line                       int
+}
+type c09PkgTables struct {
+	Vars []struct{ Dir, Name, Kind string } `json:"pkg_vars"`
+	W    []c09Site                          `json:"pkg_var_writes"`
+	M    []c09Site                          `json:"pkg_var_methods"`
+	S    []c09Site                          `json:"shared_type_writes"`
+}
+
+func c09LoadPkgTables(e *env) *c09PkgTables {
 	if e.tables == "" {
-		return
+		return nil
 	}
 	bs, err := os.ReadFile(e.tables)
 	if err != nil {
-		return
+		return nil
 	}
-	var t struct {
-		Vars []struct{ Dir, Name, Kind string } `json:"pkg_vars"`
-		W    []struct {
-			Dir, Func, Var, Kind, File string
-			Line                       int
-		} `json:"pkg_var_writes"`
-		M []struct {
-			Dir, Func, Var, Kind, File string
-			Line                       int
-		} `json:"pkg_var_methods"`
-		S []struct {
-			Dir, Func, Var, Kind, File string
-			Line                       int
-		} `json:"shared_type_writes"`
-	}
+	var t c09PkgTables
 	if json.Unmarshal(bs, &t) != nil {
+		return nil
+	}
+	return &t
+}
+
+// c09PackageStateDiff: SOFT tie.  The lists enumerated from the current sources against the lists recorded
+// when the model boundary was reviewed (bin/c09_pkgstate_reviewed.json): the differences, as text.  A
+// difference is never an alarm (renaming a regexp or moving code between functions changes the lists); it
+// is named in the evidence and makes the race harness search three times as many cases.  The HARD tie --
+// no variable of a kind that can hold mutable state, no write outside init, no unreviewed method, no write
+// through a shared type outside Registry.Add -- is a proof obligation (Proofs/ConcGlobalsProofs.v).
+func c09PackageStateDiff(e *env) []string {
+	t := c09LoadPkgTables(e)
+	dir := os.Getenv("VERIF_DIR")
+	if t == nil || dir == "" {
+		return nil
+	}
+	bs, err := os.ReadFile(dir + "/bin/c09_pkgstate_reviewed.json")
+	if err != nil {
+		return nil
+	}
+	var base map[string]json.RawMessage
+	if json.Unmarshal(bs, &base) != nil {
+		return nil
+	}
+	cur := map[string][]string{}
+	for _, v := range t.Vars {
+		cur["pkg_vars"] = append(cur["pkg_vars"], v.Dir+"."+v.Name+" : "+v.Kind)
+	}
+	add := func(k string, l []c09Site) {
+		for _, s := range l {
+			cur[k] = append(cur[k], s.Dir+" "+s.Var+" in "+s.Func+": "+s.Kind)
+		}
+	}
+	add("pkg_var_writes", t.W)
+	add("pkg_var_methods", t.M)
+	add("shared_type_writes", t.S)
+	var diffs []string
+	for _, k := range []string{"pkg_vars", "pkg_var_writes", "pkg_var_methods", "shared_type_writes"} {
+		var rows [][]string
+		if json.Unmarshal(base[k], &rows) != nil {
+			continue
+		}
+		was := map[string]bool{}
+		for _, r := range rows {
+			if k == "pkg_vars" && len(r) == 3 {
+				was[r[0]+"."+r[1]+" : "+r[2]] = true
+			} else if len(r) == 4 {
+				was[r[0]+" "+r[1]+" in "+r[2]+": "+r[3]] = true
+			}
+		}
+		now := map[string]bool{}
+		for _, c := range cur[k] {
+			now[c] = true
+			if !was[c] {
+				diffs = append(diffs, "+"+k+" "+c)
+			}
+		}
+		for w := range was {
+			if !now[w] {
+				diffs = append(diffs, "-"+k+" "+w)
+			}
+		}
+	}
+	sort.Strings(diffs)
+	return diffs
+}
+
+// c09PackageState copies the enumerated package-level state into the evidence.
+func c09PackageState(e *env) {
+	t := c09LoadPkgTables(e)
+	if t == nil {
 		return
 	}
 	kinds := map[string]int{}
